@@ -108,6 +108,10 @@ func TestC16(t *testing.T) {
 	p = c.rec.NewPart("long_tokens_and_truncations", "30..100-byte words, numbers, strings, comments, variables, bracket words in several contexts; every prefix of every literal form and corpus input", false, true, "")
 	c.ParRange(p, int64(len(lt)), func(w *Worker, i int64) { judge(w, lt[i]) })
 
+	bnd := sqlBoundaryInputs()
+	p = c.rec.NewPart("boundary_inputs", "slot-, clip- and length-boundary inputs (see C06), incl. multi-byte characters across the 31-byte clip and BOM-prefixed fixtures", false, true, "")
+	c.ParRange(p, int64(len(bnd)), func(w *Worker, i int64) { judge(w, bnd[i]) })
+
 	p = c.rec.NewPart("rapid_fragments", "rapid over the SQL fragment grammar", true, false, "")
 	g := gen.SQLInput()
 	c.Rapid(p, 8, pick(60000, 800000), func(rt *rapid.T, sh int) ev.Case { return c16Case(g.Draw(rt, "in")) })
